@@ -1,6 +1,7 @@
 /-
   Driver handler for the kernels regenerated from the source (`Generated/Kernels.lean`):
   `kern.eval {name, attrs: {key: u64}, pts: [{x: [u64], b: [bool]}]}` → `[u64 | null]`,
+  `kern.evalv` (vector kernels: array / length arguments, array-valued attributes) → `[[u64]]`,
   `kern.names` → the kernels present / missing in this translation.
 -/
 import AeicModel.Generated.Kernels
@@ -31,6 +32,27 @@ def handle (op : String) (j : Json) : Except String Json :=
         match evalFloat name A xs.toArray bs.toArray with
         | some v => pure (putF v)
         | none => throw s!"unknown kernel {name}"
+      pure (Json.arr outs.toArray)
+  | "evalv" => do
+      -- vector kernels: {name, attrs: {key: u64}, vattrs: {key: [u64]}, pts: [{x: [u64], b: [bool], v: [[u64]], n: [nat]}]} → [[u64]]
+      let name ← getStr (← field j "name")
+      let kvs ← match fieldD j "attrs" (Json.mkObj []) with
+        | Json.obj m => (m.toList.mapM fun (k, v) => do pure (k, ← getF v))
+        | _ => throw "attrs: object expected"
+      let vkvs ← match fieldD j "vattrs" (Json.mkObj []) with
+        | Json.obj m => (m.toList.mapM fun (k, v) => do pure (k, ← getFs v))
+        | _ => throw "vattrs: object expected"
+      let A := attrEnv kvs
+      let AV : String → List Float := fun k => (vkvs.lookup k).getD []
+      let pts ← getArr (← field j "pts")
+      let outs ← pts.toList.mapM fun p => do
+        let xs ← getFs (fieldD p "x" (Json.arr #[]))
+        let bs ← getList getBool (fieldD p "b" (Json.arr #[]))
+        let vs ← getList getFs (fieldD p "v" (Json.arr #[]))
+        let ns ← getNats (fieldD p "n" (Json.arr #[]))
+        match evalFloatV name A AV xs.toArray bs.toArray vs.toArray ns.toArray with
+        | some v => pure (putFs v)
+        | none => throw s!"unknown vector kernel {name}"
       pure (Json.arr outs.toArray)
   | _ => throw s!"kern: unknown op {op}"
 
